@@ -1,5 +1,5 @@
 import AcraModel.Wire.MysqlRow
-import AcraModel.Props.C12
+import AcraModel.Wire.LenEncProofs
 /-!
 Lemmas about the MySQL wire models (`MysqlPacket.lean`, `MysqlRow.lean`):
 packet framing (single packets are relayed identically, `SetData`/`replaceQuery` keep the declared
@@ -8,7 +8,7 @@ text rows and binary rows (specification codec round trips, and the row processo
 specification encoding of the transformed row).
 -/
 namespace AcraModel.Wire.My
-open AcraModel AcraModel.Wire.LenEnc AcraModel.Props.C12
+open AcraModel AcraModel.Wire.LenEnc AcraModel.Wire.LenEnc.Proofs
 
 /-! ## A. packets -/
 
